@@ -129,7 +129,7 @@ class ProgGen:
     """one generated program; `features` selects the stratum."""
 
     ALL_FEATURES = ["functions", "inlines", "lets", "assign", "destructure", "captures", "rest", "lambda",
-                    "constants", "macros", "literals", "qq", "applydata", "manyparams"]
+                    "constants", "macros", "literals", "qq", "applydata", "manyparams", "shadow"]
 
     def __init__(self, rng, dialect, features=None, nparams=None):
         self.rng = rng
@@ -152,6 +152,15 @@ class ProgGen:
 
     def has(self, f):
         return f in self.features
+
+    def bind_name(self, sc, prefix, avoid=()):
+        """a name for a new binding: usually fresh, sometimes one already in scope (shadowing)."""
+        if self.has("shadow") and sc.vars and self.rng.random() < 0.3:
+            cands = [n for n in sc.vars if n not in avoid and not n.startswith("K")]
+            if cands:
+                self.use("shadow")
+                return self.rng.choice(cands)
+        return self.fresh(prefix)
 
     def use(self, f):
         self.used_features.add(f)
@@ -359,14 +368,29 @@ class ProgGen:
         cur = sc
         new = {}
         for _ in range(n):
-            nm = self.fresh("V")
+            nm = self.bind_name(cur if kind == "let*" else sc, "V", avoid=(new if kind == "let" else ()))
             t = rng.choice(["int", "int", "bytes", "ilist"])
             e = self.expr(cur if kind == "let*" else sc, t, d)
             binds.append(L(S(nm), e))
             new[nm] = t
             if kind == "let*":
                 cur = cur.extend({nm: t})
-        body = self.expr(sc.extend(new), ty, d)
+        inner_sc = sc.extend(new)
+        if self.has("shadow") and new and rng.random() < 0.35:
+            # rebinding of one of this let's own names in a nested binding form that uses it
+            self.use("shadow")
+            nm = rng.choice(sorted(new))
+            t = new[nm]
+            rebound = self.expr(inner_sc, t, max(1, d))
+            use = self.expr(inner_sc, ty, d)
+            form = rng.choice(["let", "let*", "assign"] if self.has("assign") and not self.classic else ["let", "let*"])
+            if form == "assign":
+                other = self.fresh("V")
+                body = L(S("assign"), S(other), rebound, S(nm), S(other), use)
+            else:
+                body = L(S(form), L(L(S(nm), rebound)), use)
+        else:
+            body = self.expr(inner_sc, ty, d)
         return L(S(kind), ("list", binds, None) if binds else NILT, body)
 
     def assignform(self, sc, ty, d):
@@ -385,7 +409,7 @@ class ProgGen:
                 e = L(S("list"), self.expr(cur, "int", d), self.expr(cur, "int", d))
                 add = {a: "int", b: "int"}
             else:
-                nm = self.fresh("V")
+                nm = self.bind_name(sc, "V", avoid=new)
                 t = rng.choice(["int", "int", "bytes", "ilist"])
                 pat = S(nm)
                 e = self.expr(cur, t, d)
@@ -404,7 +428,7 @@ class ProgGen:
         rng = self.rng
         self.use("lambda")
         caps = rng.sample(list(sc.vars), min(len(sc.vars), rng.randint(0, 2)))
-        p = self.fresh("L")
+        p = self.bind_name(sc, "L", avoid=caps)
         pt = rng.choice(["int", "bytes", "ilist"])
         inner = Scope({c: sc.vars[c] for c in caps}).extend({p: pt})
         body = self.expr(inner, ty, d)
